@@ -171,6 +171,7 @@ def run(repo: Repo, tier: str, res: CheckResult, seed: int = 0) -> None:
         mutation_findings(m, fn, qual, role, res)
         freshness_findings(repo, R, m, fn, qual, role, res)
     res.count("PURE.closures", n_closures, 90)
+    container_coercers(repo, res)
     from .. import genprog
     genprog.c20_checks(repo, tier, res, seed)
     res.assumptions = list(ASSUMPTIONS)
@@ -249,3 +250,54 @@ def _reassigned(fn: ast.FunctionDef, name: str) -> bool:
         if isinstance(node, ast.Assign) and any(isinstance(t, ast.Name) and t.id == name for t in node.targets):
             return True
     return False
+
+
+def container_coercers(repo: Repo, res: CheckResult) -> None:
+    """converters rebuild every container: the structural coercer providers hand out only closures that build the
+    destination container, and they stand before the pass-through providers in the builtin recipe (otherwise a same-typed
+    list / dict field of the source object would be shared with the result)"""
+    m = repo.mod("conversion/coercer_provider")
+    n = 0
+    for cname in ("IterableCoercerProvider", "DictCoercerProvider"):
+        ci = m.classes.get(cname)
+        if ci is None or "_provide_coercer_norm_types" not in ci.methods:
+            raise AnalysisError(f"anchor vanished: {cname}._provide_coercer_norm_types")
+        fn = ci.methods["_provide_coercer_norm_types"]
+        closures = {d.name: d for d in fn.body if isinstance(d, ast.FunctionDef)}
+        for r in [x for x in walk_no_nested(fn) if isinstance(x, ast.Return) and x.value is not None]:
+            n += 1
+            res.evaluated(f"fresh:container-coercer:{cname}:{norm(r.value)[:40]}", True)
+            v = r.value
+            if isinstance(v, ast.Name) and v.id in closures:
+                cl = closures[v.id]
+                rets = [x for x in walk_no_nested(cl) if isinstance(x, ast.Return) and x.value is not None]
+                p0 = func_params(cl)[0]
+                for cr in rets:
+                    builds = isinstance(cr.value, (ast.DictComp, ast.ListComp, ast.SetComp, ast.Dict, ast.List)) or (
+                        isinstance(cr.value, ast.Call) and not (isinstance(cr.value.func, ast.Name) and cr.value.func.id == p0))
+                    if isinstance(cr.value, ast.Name) and cr.value.id == p0:
+                        builds = False
+                    if not builds:
+                        res.add(Finding("C20", "FRESH.container-coercer-passthrough", m.rel, f"{cname}._provide_coercer_norm_types.{cl.name}",
+                                        norm(cr), "the container coercer does not build a new container", cr.lineno))
+                continue
+            res.add(Finding("C20", "FRESH.container-coercer-passthrough", m.rel, f"{cname}._provide_coercer_norm_types", norm(r),
+                            f"{cname} answers with `{norm(v)}` instead of a closure that builds the destination container: the "
+                            "converted object then holds the source's own container (results share it with the argument and "
+                            "with each other)", r.lineno))
+    res.count("FRESH.container-coercer-returns", n, 2)
+    # recipe order
+    fr = repo.mod("conversion/facade/retort")
+    ci = fr.classes.get("FilledConversionRetort")
+    if ci is None or "recipe" not in ci.attrs or not isinstance(ci.attrs["recipe"], ast.List):
+        raise AnalysisError("anchor vanished: FilledConversionRetort.recipe")
+    order = [norm(e.func) if isinstance(e, ast.Call) else norm(e) for e in ci.attrs["recipe"].elts]
+    res.evaluated("fresh:conversion-recipe-order", True)
+    structural = [i for i, x in enumerate(order) if x in ("IterableCoercerProvider", "DictCoercerProvider")]
+    passing = [i for i, x in enumerate(order) if x in ("SameTypeCoercerProvider", "SubclassCoercerProvider", "UnionSubcaseCoercerProvider")]
+    if len(structural) != 2 or not passing:
+        raise AnalysisError("FilledConversionRetort.recipe: structural / pass-through coercer providers not found")
+    if max(structural) > min(passing):
+        res.add(Finding("C20", "FRESH.recipe-order", fr.rel, "FilledConversionRetort", " < ".join(order),
+                        "a pass-through coercer provider precedes the iterable/dict coercer providers: equal-typed containers "
+                        "of the source would be handed to the result instead of being rebuilt", ci.node.lineno))
